@@ -678,7 +678,7 @@ def build_programs(ctx, rnd, quick, simq, rrcfgs, sim_ps, sim_rr):
         prog = [{k: v for k, v in a.items() if k in ("a", "p", "s", "id", "buf", "req")} for a in prog
                 if a.get("a") not in ("update_sub", "abandon_sub", "none")]
         programs.append(Program("ps", dict(simq, payload=kinds[i % len(kinds)], variant=("ipc", "local")[(i // 4) % 2]), prog, "tlc"))
-    for i in range(10 if quick else 80):
+    for i in range(10 if quick else 48):
         q = ps_qos(rnd, kinds[(i + 2) % len(kinds)], ("ipc", "ipc", "local")[i % 3])
         programs.append(Program("ps", q, gen_ps_program(rnd, q, 70 if quick else 110), "seeded", order=i % 3))
     for payload, prog in KNOWN_PS:
@@ -689,11 +689,11 @@ def build_programs(ctx, rnd, quick, simq, rrcfgs, sim_ps, sim_rr):
     for prog in sim_rr:
         programs.append(Program("rr", plain[0], prog, "tlc"))
     for c, dc in zip(rrcfgs, plain):
-        for i in range(6 if quick else 40):
+        for i in range(6 if quick else 24):
             programs.append(Program("rr", dc, gen_rr_program(rnd, c, 50 if quick else 80), "seeded", order=i % 2))
     for prog in KNOWN_RR:
         programs.append(Program("rr", plain[0], prog, "witness"))
-    for i in range(6 if quick else 40):
+    for i in range(6 if quick else 24):
         c = dict(variant=("ipc", "local")[i % 2], maxid=rnd.choice((3, 7, 15)), max_notifiers=rnd.choice((1, 2, 3)), max_listeners=1)
         programs.append(Program("ev", c, gen_ev_program(rnd, c, 40 if quick else 80), "seeded", order=i % 2))
     return programs
@@ -730,7 +730,7 @@ def run(ctx):
         c["nreq"], c["nresp"] = r[0]["nreq"], r[0]["nresp"]
         if c["nreq"] < 1 or c["nresp"] < 1:
             raise vp.ToolError(f"parameter extraction failed: {r[0]}")
-    nsim = 6 if quick else 40
+    nsim = 6 if quick else 24
     table_violations, sim_ps, sim_rr = parallel([(error_table, (ctx, table, tsumm)),
                                                  (simulate_ps, (ctx, simq, nsim, 36 if quick else 60)),
                                                  (simulate_rr, (ctx, rrcfgs[0], nsim, 40 if quick else 60))], 3)
@@ -887,6 +887,9 @@ def run(ctx):
         ctx.coverage.setdefault("rejected_identically_through_both_apis", []).append(
             {"pattern": pr.pat, "cfg": pr.cfg, "program": pr.prog, "first_unexplained": record, "invariant": inv})
 
+    if not quick:
+        selftest(ctx, programs, rrcfgs, plain)
+
     # ---- 7. samples, vacuity ---------------------------------------------------------------------------------------------------
     for pat in ("ps", "rr", "ev"):
         pr = next((p for p in programs if p.pat == pat and p.origin != "witness" and "c" in p.runs and len(p.prog) > 10), None)
@@ -899,6 +902,7 @@ def run(ctx):
     missing = [k for k, alts in CORE.items() if not any(counts.get(a, 0) > 0 for a in alts)]
     if missing and not crashes:
         raise vp.ToolError(f"vacuous: core actions never exercised through the C API: {missing}; counts: {counts}")
+    ctx.coverage["traces_validated"] = ctx.traces_validated
     ctx.coverage["core_actions_through_c"] = {k: sum(counts.get(a, 0) for a in alts) for k, alts in CORE.items()}
     ctx.coverage["rule"] = ("programs = generated behaviours (TLC -simulate over PubSubGen/ReqResGen, seeded generator, "
                             "known-finding witnesses) executed through BOTH APIs (Rust-only and C-only; plus mixed); "
@@ -907,6 +911,43 @@ def run(ctx):
                             "TLC up to the first differing event; traces_validated = recorded runs explained completely by "
                             "the trace specification (a run identical to a validated one counts with it)")
     cleanup()
+
+
+def selftest(ctx, programs, rrcfgs, plain):
+    """Binding demonstration: a corrupted record must be rejected by the trace specification, and a corrupted
+    field must be seen by the comparison."""
+    done = {}
+    for pat, pick, mutate, what in (
+            ("ps", lambda e: e.get("a") == "recv" and e.get("r") == "some", lambda e: e.update(id=e["id"] + 1), "received_id_changed"),
+            ("ps", lambda e: e.get("a") == "send" and e.get("r") == "ok" and e.get("n", 0) > 0, lambda e: e.update(n=e["n"] - 1), "recipients_changed"),
+            ("ps", lambda e: e.get("a") == "drop_pub", lambda e: e.update(np=e["np"] + 1), "registry_count_after_drop_changed"),
+            ("rr", lambda e: e.get("a") == "ReceiveResponse" and e.get("r") == "some", lambda e: e.update(pn=e["pn"] + 1), "response_routed_elsewhere"),
+            ("ev", lambda e: e.get("k") == "ret" and e.get("a") == "wait" and e.get("rep"), lambda e: e.update(rep=e["rep"] + [[e["rep"][-1][0] + 1, 1]]), "phantom_event")):
+        for pr in programs:
+            run_ = pr.runs.get("c")
+            if pr.pat != pat or pr.origin == "witness" or not run_:
+                continue
+            idx = [k for k, e in enumerate(run_) if pick(e)]
+            if not idx:
+                continue
+            bad = [dict(e) for e in run_]
+            mutate(bad[idx[0]])
+            c = next((c for c, dc in zip(rrcfgs, plain) if dc == pr.cfg), None)
+            if pat == "rr":     # a C run carries no channel ids: take those of the identical Rust-only run
+                for k, e in enumerate(bad):
+                    if e.get("k") == "op" and k < len(pr.runs["rust"]):
+                        e["ch"], e["rid"] = pr.runs["rust"][k].get("ch", -1), pr.runs["rust"][k].get("rid", -1)
+            rej = validate(ctx, pat, [bad], f"selftest-{what}", c)
+            ctx.traces_validated -= 0 if rej else 1
+            if not rej:
+                raise vp.ToolError(f"binding self-test failed: corrupted trace ({what}) was accepted")
+            if first_difference(pr.runs["rust"], bad) is None:
+                raise vp.ToolError(f"binding self-test failed: corrupted field ({what}) was not seen by the comparison")
+            done[what] = {"rejected_at_record": rej[0][1], "invariant": rej[0][3]}
+            break
+        else:
+            ctx.note(f"self-test {what}: no suitable record in the traces of this run")
+    ctx.coverage["selftest"] = done
 
 
 def cleanup():
